@@ -46,6 +46,16 @@ def gen_values(rng, n):
 
 def gen_formula(rng):
     g = D.DGen(rng, D.VARS, ALLOW, max_bound=rng.choice([1, 2, 4, 6]))
+    if rng.random() < 0.12:
+        # variables used directly as formulas, one of them under `not` / unary minus / abs, and read again by another operator
+        # (a visitor that hands back or changes the list of its operand shows only then)
+        x = ("v", rng.choice(D.VARS[:2]))
+        u = ("u", rng.choice(["not", "not", "negate", "abs"]), x)
+        a = rng.randint(0, 2)
+        other = rng.choice([("tb1", rng.choice(["once", "hist", "ev", "alw"]), a, a + rng.randint(0, 3), x), ("t1", rng.choice(["once", "hist"]), x), x,
+                            ("b", "ge", x, ("c", rng.choice([0.0, 1.0])))])
+        op = rng.choice(["and", "or", "implies"])
+        return ("b", op, u, other) if rng.random() < 0.6 else ("b", op, other, u)
     if rng.random() < 0.4:
         # one bounded temporal operator (window width up to 6 periods) over a shallow operand, possibly under one more operator
         a = rng.randint(0, 3)
